@@ -1,4 +1,10 @@
 (* C16 - property theorems only. *)
 From Coq Require Import String List.
-Require Import PV.Json PV.Workspace.
+Require Import PV.Json PV.Workspace PV.WorkspaceRun PV.gen.FactsC16.
 Import ListNotations.
+
+(* tie to the source: the join names accepted by combine; modifier types are checked against the types of all (name, type) pairs *)
+Lemma C16_valid_joins : map join_of_string ws_valid_joins = [Some JNone; Some JOuter; Some JLeft; Some JRight].
+Proof. reflexivity. Qed.
+Lemma C16_types_check : prune_types_via_dict = false.
+Proof. reflexivity. Qed.
